@@ -5,6 +5,13 @@ from proglib import DT
 PROP_FILES = ["Properties_C11.v"]
 
 
+def pre_run(ctx):
+    import os
+    if "drv_ts.ml" in open(os.path.join(vlib.VERIF, "ocaml", "DRIVERS")).read():
+        import C11_ts
+        C11_ts.run_ts(ctx)
+
+
 def gen_case(rng, tier):
     adf = rng.choice([10, 10, 10, 11, 13, 100])
     use_sig0 = rng.random() < 0.25
@@ -94,7 +101,7 @@ def run(ctx):
         "types, payload sizes 0..3000; then iteration from timestamps before the first / equal / between / after the last / at every chunk boundary, and "
         "with a callback that stops after 1 or 3; oracle (extracted Spec.anno_seek_range): delivered = written[j:] for some j between (first index with "
         "ts>=t)-1 and that index, every field equal; distinct = script; non-trivial = at least one annotation",
-        classify=classify, timeout=60)
+        classify=classify, timeout=60, pre_run=pre_run, variants=("plain", "asan"))
 
 
 def replay(ctx, path):
